@@ -182,7 +182,7 @@ func (x *Exec) enterLoopHeader(cfg *Config, f *Frame, from, to *ssa.BasicBlock, 
 			if name == "$top" {
 				continue // only ever grows: handled below
 			}
-			if mods[name] || mods[strings.SplitN(name, "!len", 2)[0]] || mods[strings.SplitN(name, "!at", 2)[0]] || (mods["$callret"] && strings.HasPrefix(name, "$callret!")) {
+			if mods[name] || mods[strings.SplitN(name, "!len", 2)[0]] || mods[strings.SplitN(name, "!at", 2)[0]] || (mods["$callret"] && strings.HasPrefix(name, "$callret!")) || (mods["$calls"] && strings.HasPrefix(name, "$calls!")) {
 				prev := st.heap[name]
 				st.heap[name] = x.d.Fresh(fmt.Sprintf("L%d!%s", ord, name), st.heap[name].Sort)
 				x.loopFrame(st, name, prev)
@@ -650,7 +650,6 @@ func shortFuncName(key string) string {
 // ghostCallMods: the ghost arrays that calls inside a loop body may change
 // (call counters and histories, once / atomic / channel state).
 func (x *Exec) ghostCallMods(mods map[string]bool) {
-	x.regArr("$calls", SArr(SInt, x.idxSort()))
 	mods["$calls"] = true
 	x.regArr("$oncedone", SArr(SInt, SBool))
 	mods["$oncedone"] = true
@@ -667,7 +666,7 @@ func (x *Exec) ghostCallMods(mods map[string]bool) {
 
 func isGhostCallArr(name string) bool {
 	switch name {
-	case "$calls", "$oncedone", "$atomic", "$atomicb", "$closed", "$recvready":
+	case "$oncedone", "$atomic", "$atomicb", "$closed", "$recvready":
 		return true
 	}
 	return false
